@@ -3077,6 +3077,19 @@ class Translator:
                 rty = "unit"
             else:
                 rty = em.ty_of_text(ret)
+            if isinstance(rty, tuple) and rty[0] == "res":
+                # a function returning Result: the placeholder is an error value no Rust error maps to
+                rty = rty[1]
+                res_tys = ([rty] if rty != "unit" else []) + [dict(ps)[m] for m in muts]
+                res_lean = " × ".join(atom(lean_ty(t)) for t in res_tys) if res_tys else "Unit"
+                binder = " (fuel0 : Nat)" if getattr(self, "recursive_fuel", None) == lean else (" (fuel : Nat)" if self.fuels.get(lean) == "fuel" else "")
+                binder += "".join(f" ({lname(n)} : {lean_ty(t)})" for n, t in ps)
+                self.out.append(f"/-- `{file}`: `{rust}` — NOT TRANSLATED (outside the subset): placeholder with the function's signature -/\n"
+                                f"def {lean}{binder} : Except IntError ({res_lean}) :=\n  Except.error (Interp.panicErr \"not translated\")\n")
+                sig = Sig(lean, ps, rty, muts, [], True, self_ty, uses_draws=uses_draws)
+                sig.kind = "Except"
+                self.register(struct, rust, sig)
+                return
             res_tys = ([rty] if rty != "unit" else []) + [dict(ps)[m] for m in muts]
             if not res_tys:
                 return
@@ -3099,6 +3112,45 @@ class Translator:
             self.out.append(f"/-- `{file}`: `{rust}` — NOT TRANSLATED (outside the subset): placeholder with the function's signature -/\n"
                             f"def {lean}{binder} : {rtxt} :=\n  {'some ' + atom(val) if monadic else val}\n")
             self.register(struct, rust, Sig(lean, ps, rty, muts, inputs, monadic, self_ty, uses_draws=uses_draws))
+        except (Unsupported, IndexError, KeyError, TypeError, AttributeError):
+            self.emit_stub_from_shape(file, rust, lean, struct)
+
+    def emit_stub_from_shape(self, file, rust, lean, struct):
+        """the signature itself is outside the subset (a parameter of an unknown type, ..): fall back to the signature the
+        function had when it was last translated (tools/rs2lean2.shapes.json, committed), so that callers still build"""
+        prev = self.prev_sigs.get(lean)
+        if not prev or "ps" not in prev:
+            return
+        def tup(x):
+            return tuple(tup(y) if isinstance(y, list) else y for y in x) if isinstance(x, list) else x
+        try:
+            ps = [(n, tup(t)) for n, t in prev["ps"]]
+            rty = tup(prev["rty"])
+            muts = list(prev["muts"])
+            inputs = [(n, tup(t)) for n, t in prev.get("inputs", [])]
+            self_ty = tup(prev["self_ty"]) if prev.get("self_ty") else None
+            env = {n: (("self_" if n == "self" else lname(n)), t) for n, t in ps}
+            res_tys = ([rty] if rty != "unit" else []) + [dict(ps)[m] for m in muts]
+            binder = prev.get("fuel_binder", "")
+            binder += "".join(f" ({'self_' if n == 'self' else lname(n)} : {lean_ty(t)})" for n, t in ps)
+            binder += "".join(f" ({n} : {lean_ty(t)})" for n, t in inputs)
+            if prev.get("kind") == "Except":
+                res_lean = " × ".join(atom(lean_ty(t)) for t in res_tys) if res_tys else "Unit"
+                rtxt, val = f"Except IntError ({res_lean})", 'Except.error (Interp.panicErr "not translated")'
+            else:
+                comps = [self.stub_value(t, env) for t in res_tys]
+                k0 = 0 if rty == "unit" else 1
+                for i, m in enumerate(muts):
+                    comps[k0 + i] = env[m][0]
+                v = comps[0] if len(comps) == 1 else "(" + ", ".join(comps) + ")"
+                res_lean = " × ".join(atom(lean_ty(t)) for t in res_tys)
+                rtxt = f"Option ({res_lean})" if prev.get("monadic") else res_lean
+                val = ("some " + atom(v)) if prev.get("monadic") else v
+            self.out.append(f"/-- `{file}`: `{rust}` — NOT TRANSLATED (its signature is outside the subset): placeholder with the last "
+                            f"translated signature -/\ndef {lean}{binder} : {rtxt} :=\n  {val}\n")
+            sig = Sig(lean, ps, rty, muts, inputs, bool(prev.get("monadic")), self_ty, uses_draws=bool(prev.get("uses_draws")))
+            sig.kind = prev.get("kind") or "Option"
+            self.register(struct, rust, sig)
         except (Unsupported, IndexError, KeyError, TypeError, AttributeError):
             pass
 
@@ -3413,7 +3465,10 @@ class Translator:
             self.out.append(f"/-- {d} -/\ndef {lean}{binder} : {rtxt} :=\n  {v}\n")
             sig = Sig(lean, ps, rty, muts, em.inputs, em.monadic, self_ty, uses_draws=em.uses_draws)
             sig.kind = em.monad
-            self.good_sigs[lean] = {"monadic": em.monadic, "inputs": [[n, t] for n, t in em.inputs], "uses_draws": em.uses_draws}
+            fuel_binder = " (fuel0 : Nat)" if getattr(self, "recursive_fuel", None) == lean else (" (fuel : Nat)" if self.fuels.get(lean) == "fuel" else "")
+            self.good_sigs[lean] = {"monadic": em.monadic, "inputs": [[n, t] for n, t in em.inputs], "uses_draws": em.uses_draws,
+                                    "ps": [[n, t] for n, t in ps], "rty": rty, "muts": list(muts), "self_ty": self_ty,
+                                    "kind": em.monad, "fuel_binder": fuel_binder}
             self.register(struct, rust, sig)
             for ok, why in em.twins:
                 self.twins.append((lean, ok))
